@@ -373,12 +373,12 @@ def run_m2s(R, name):
     R.sample({"config": name, "reward_shape": list(et.reward.shape)})
 
 
-def run_spaces(R, name, default=False):
+def run_spaces(R, name, default=False, env=None):
     """converted gym spaces / dm_env specs carry exactly the source spec's parameters (then membership agreement follows from
     the libraries' documented contains/validate); sampled gym actions validate against the native action spec."""
     import gymnasium as gym
     from jumanji import specs
-    env = configs.make_default(name) if default else configs.make(name)
+    env = env if env is not None else (configs.make_default(name) if default else configs.make(name))
     bad = []
 
     def cmp(spec, space, path):
